@@ -159,7 +159,9 @@ def run (case _impl : String) : String :=
       let notUdt := (op == "sv" || op == "dv") && cols == ["-:notudt"]
       let cols := if notUdt then [] else cols
       match (if flavor == "bn" then some Flavor.byName else if flavor == "ord" then some Flavor.ordered else none),
-            bit snc, bit forbid, n.toNat?, cols.mapM parseCol, (if wholeNull then some [] else vals.mapM parseVal) with
+            bit snc, bit forbid, n.toNat?, cols.mapM parseCol, (if wholeNull then some []
+             else if op == "du" then (match vals with | _ :: rest => (rest.mapM parseVal).map (none :: ·) | [] => none)
+             else vals.mapM parseVal) with
       | some flavor, some snc, some forbid, some n, some db, some vs =>
         match parseFields (fieldToks.length + 1) n fieldToks with
         | some (pfs, []) =>
@@ -190,6 +192,13 @@ def run (case _impl : String) : String :=
             (if isFlat pfs then
               showRes (deserValueAt d (if notUdt then none else some db) (if wholeNull then none else some vs))
              else "bad-case")
+          else if op == "du" then
+            -- `deserialize` without `type_check` (second token after the struct name decides row / UDT in the harness;
+            -- here: the descriptor's kind is not in the line, so `du` carries `row` / `udt` as the first value token)
+            (match vals with
+             | "row" :: _ => (if isFlat pfs then showRes (deRowUnchecked d db (vs.drop 1)) else "bad-case")
+             | "udt" :: _ => (if isFlat pfs then showRes (deValueUnchecked d db (vs.drop 1)) else "bad-case")
+             | _ => "bad-case")
           else if op == "dr" then
             (if isFlat pfs then showRes (deserRow d db vs) else "bad-case")
           else "bad-case"
